@@ -200,6 +200,17 @@ def main() -> int:
             faults.append(f"{r['label']}: {r['reason'][:300]}")
             continue
         solver_s += r.get("seconds", 0.0)
+        if r["kind"] == "bounded":
+            if r["status"] == PROVED:
+                bounded_seen.setdefault(r["label"], {"standin": r["label"], "bound": r["func"], "why": "assumed contracts of code outside the executor's subset", "obligations": [r["label"]], "result": r["reason"][-200:]})
+            else:
+                rp = os.path.join(VERIF, "replays", f"{pid}-bounded.py")
+                with open(rp, "w") as f:
+                    f.write("import subprocess, sys\n# bounded native stand-in found a failing input:\n" + "".join("# " + ln + "\n" for ln in r["reason"].splitlines()[-8:])
+                            + "sys.exit(subprocess.call([sys.executable, '/verif/" + r["func"].split(":", 1)[1] + "']))\n")
+                violations.append(f"VIOLATION property={pid} replay={rp} obligation={r['label']} (bounded native stand-in found a failing input)")
+                n_obl += 1
+            continue
         kf = next((f for f in known if r["label"] in f["obligations"]), None)
         if r["status"] == PROVED:
             n_obl += 1
